@@ -88,6 +88,7 @@ def check_one(ctx, res, seed):
     for i in gen_q:
         groups.setdefault(qs[i][1], []).append(i)
     viol = []
+    seen_headers = set()
     for ident, idxs in groups.items():
         decls = {res["q"][i]["decl"] for i in idxs}
         if len(decls) > 1:
@@ -99,11 +100,47 @@ def check_one(ctx, res, seed):
             dc = res["q"][i]["decl"]
             if dc.startswith("\x00"):
                 continue
-            m = re.match(r"type ([^<= ]+)(<[^=]*?(?:= [^,>]*)?(?:, [^=,>]*(?: = [^,>]*)?)*>)? = ", dc)
-            names = re.findall(r"(?:<|, )([A-Za-z_][A-Za-z_0-9]*)", m.group(2) or "") if m else None
-            if names is not None and m.group(2) and [n for n in names][:len(d["params"])] != [p for p, _ in d["params"]]:
-                # only a coarse check here (defaults may contain `<`); the exact statement is the text correspondence
-                pass
+            # the header binds exactly the parameters of the definition that are not concretised, in their order
+            if d.get("type") or d.get("as_"):
+                continue
+            conc_ix = {int(k) for k, _ in (d.get("concrete") or [])}
+            want_names = [p_.replace("r#", "") for k, (p_, _) in enumerate(d["params"]) if k not in conc_ix]
+            head = dc[len("type "):dc.index(" = ")] if dc.startswith("type ") and " = " in dc else None
+            got_names = None
+            if head is not None:
+                k0 = head.find("<")
+                if k0 < 0:
+                    got_names = []
+                else:
+                    # the header ends at the `>` that closes its `<`: the first ` = ` may lie inside a default
+                    depth, end = 0, None
+                    for pos in range(dc.index("<"), len(dc)):
+                        ch = dc[pos]
+                        if ch == "<":
+                            depth += 1
+                        elif ch == ">":
+                            depth -= 1
+                            if depth == 0:
+                                end = pos
+                                break
+                    if end is not None:
+                        parts, depth, cur = [], 0, ""
+                        for ch in dc[dc.index("<") + 1:end]:
+                            if ch in "<([{":
+                                depth += 1
+                            elif ch in ">)]}":
+                                depth -= 1
+                            elif ch == "," and depth == 0:
+                                parts.append(cur.strip())
+                                cur = ""
+                                continue
+                            cur += ch
+                        parts.append(cur.strip())
+                        got_names = [x.split(" = ", 1)[0].strip() for x in parts]
+            if got_names is not None and got_names != want_names and dc not in seen_headers:
+                seen_headers.add(dc)
+                viol.append(dict(kind="property-violated", what="the header of the declaration does not bind exactly the type parameters of the definition that are not concretised",
+                                 definition=C.to_rust(d), decl=dc, header_parameters=got_names, expected=want_names, seed=seed))
     # a reference to an instantiation is the identifier applied to the names of the (non-concretised) arguments
     def top_args(text):
         """the top-level arguments of `Name<..>` in the real name() text; None if there is no argument list"""
